@@ -99,6 +99,7 @@ def check(ctx) -> None:
     r112(ctx)
     r113(ctx)
     r114(ctx)
+    r115(ctx)
 
 
 # ----------------------------------------------------------------------
@@ -471,3 +472,42 @@ def r114(ctx) -> None:
             'after moving the INBOX object under its new name no fresh '
             'INBOX is created: INBOX and the renamed mailbox are the same '
             'object (messages appear in both)')
+
+
+def r115(ctx) -> None:
+    R = ctx.rule('R11.5', 'a missing mailbox is detected on every lookup '
+                 'path (maildir)', 1)
+    c = ctx.proj.cls(MAILDIR, 'MailboxSet')
+    f = c.own_method('get_mailbox')
+    if f is None:
+        raise AnchorError('maildir get_mailbox vanished')
+    cfg = cfg_of(f)
+    p = f.params()[1]
+    exist = cfg.find(lambda n: any(call_name(x) in ('get_folder',)
+                                   and '_layout' in txt(x.func)
+                                   for x in n.calls()))
+    inbox = [t for t in cfg.nodes if t.kind == 'test'
+             and guard_atoms(t.stmt.test) == [(f"{p} == 'INBOX'", True)]]
+    rets = cfg.find(lambda n: isinstance(n.stmt, ast.Return)
+                    and n.stmt.value is not None)
+    bad = []
+    for r in rets:
+        if cfg.dominated_by(r, exist):
+            continue
+        if any(cfg.controlled_by(r, t, 't') for t in inbox):
+            continue
+        # reachable only through (existence check) or (INBOX branch)
+        reach = cfg.reach([cfg.entry], avoid=exist, labels=ALL,
+                          first_labels=ALL,
+                          skip_edges=[(t, 't') for t in inbox])
+        if r in reach:
+            bad.append(r.lineno)
+    R.check(bool(exist) and not bad, f, f.node,
+            'get_mailbox: every success return passed the folder existence '
+            'check (or is INBOX)',
+            f'return at line(s) {bad} can be reached without '
+            f'self._layout.get_folder(...): a mailbox that was deleted or '
+            f'renamed away after it was cached is "found", and the '
+            f'FileNotFoundError from reset() is not the KeyError the '
+            f'interface promises (STATUS of the old name -> BYE '
+            f'[SERVERBUG] instead of NO)')
